@@ -224,10 +224,138 @@ def _two_throttles(program, ch: Chooser) -> Result:
         w.close()
 
 
+class TSys:
+    """One throttled function driven operation by operation (hv.xstate.fixpoint interface): a new
+    call arrives, the earliest timer fires (the clock jumps there), or the clock idles P/2 ahead when
+    no timer lies before that - arrival patterns of EVERY length on the P/2 grid with at most K
+    calls outstanding.  Oracle online: window, arrival order, no needless delay at every quiescent
+    point, own outcome, nobody stuck."""
+
+    def __init__(self, program) -> None:
+        from hv import vtime as _vt
+        from hv.vloop import VLoop
+
+        self.program = program
+        self.K, self.limit, self.P, self.dur = program["active"], program["limit"], 1.0, program["dur"]
+        _vt.reset()
+        self.vt = _vt
+        self.loop = VLoop()
+        self.loop.open()
+        self.viols: list[dict] = []
+        self.hist: list = []
+        self.ncalls = 0
+        self.calls: list[dict] = []  # outstanding {n, arrived, started, task}
+        self.starts: list[float] = []  # start times of the last calls (absolute)
+        sys_ = self
+
+        async def inner(n):
+            rec = next(c for c in sys_.calls if c["n"] == n)
+            rec["started"] = sys_.vt.now()
+            sys_.starts.append(rec["started"])
+            sys_.new_starts.append(n)
+            if sys_.dur > 0:
+                await asyncio.sleep(sys_.dur)
+            return ("r", n)
+
+        self.fn = throttle(limit=self.limit, period=self.P)(inner)
+        self.new_starts: list[int] = []
+
+    def close(self) -> None:
+        self.loop.shutdown()
+
+    def enabled(self):
+        ops: list = []
+        if len(self.calls) < self.K:
+            ops.append("arrive")
+        nxt = self.loop.next_deadline()
+        if nxt is not None:
+            ops.append("fire")
+        if nxt is None or nxt > self.vt.now() + 0.5:
+            if self.calls or any(t > self.vt.now() - self.P - 0.5 for t in self.starts):
+                ops.append("idle")  # (pointless once nothing is outstanding and every window has passed)
+        return ops
+
+    def _settle(self) -> list:
+        self.loop.run_ready()
+        now = self.vt.now()
+        out: list = []
+        # order: calls start in arrival order
+        waiting_before = [c["n"] for c in self.calls if c["started"] is None or c["n"] in self.new_starts]
+        if self.new_starts != waiting_before[: len(self.new_starts)]:
+            self.viols.append(viol("order", "fix/starts-not-in-arrival-order", waiting_before[: len(self.new_starts)], list(self.new_starts), history=list(self.hist)))
+        # window: no more than `limit` starts in any [s, s + P)
+        for s_ in sorted(set(self.starts[-(self.limit + len(self.new_starts) + 1):])):
+            if sum(1 for t in self.starts if s_ <= t < s_ + self.P) > self.limit:
+                self.viols.append(viol("window", f"fix/limit={self.limit}", f"<= {self.limit} starts in [{s_ - START}, {s_ - START + self.P})", [t - START for t in self.starts[-6:]], history=list(self.hist)))
+                break
+        out.append(("started", len(self.new_starts)))
+        self.new_starts.clear()
+        # finished calls: own outcome
+        keep = []
+        for c in self.calls:
+            t = c["task"]
+            if t.done():
+                if t.cancelled() or t.exception() is not None or t.result() != ("r", c["n"]):
+                    self.viols.append(viol("outcome", "fix/not-own", ["r", c["n"]], "cancelled" if t.cancelled() else repr(t.exception() or t.result())[:80], history=list(self.hist)))
+                out.append("done")
+            else:
+                keep.append(c)
+        self.calls = keep
+        # no needless delay: the head waiter is not kept waiting while there is room
+        waiting = [c for c in self.calls if c["started"] is None]
+        recent = sum(1 for t in self.starts if t > now - self.P)
+        if waiting and recent < self.limit:
+            self.viols.append(viol("no-needless-delay", f"fix/limit={self.limit}", "the first waiting call starts as soon as fewer than `limit` calls began in the last period", {"waiting": len(waiting), "recent starts": recent}, history=list(self.hist)))
+        # nobody is stuck: a waiting / running call always has a timer ahead
+        if self.calls and self.loop.next_deadline() is None:
+            self.viols.append(viol("termination", "fix/call-never-finishes", "a timer is pending for the outstanding calls", {"outstanding": len(self.calls)}, history=list(self.hist)))
+        self.starts = [t for t in self.starts if t > now - 2 * self.P - 1]
+        return out
+
+    def apply(self, op):
+        self.hist.append(op)
+        if op == "arrive":
+            n = self.ncalls
+            self.ncalls += 1
+            rec = {"n": n, "arrived": self.vt.now(), "started": None, "task": None}
+            self.calls.append(rec)
+            rec["task"] = self.loop.create_task(self.fn(n), name=f"call{n}")
+        elif op == "fire":
+            grp = self.loop.due_group()
+            self.loop.fire(grp[0])
+        elif op == "idle":
+            self.vt.advance(0.5)
+        return [op, *self._settle()]
+
+    def canon(self):
+        from hv import xstate
+
+        import haiway.helpers.throttling as mod
+
+        c = xstate.Canon({}, horizon=2 * self.P + 1)
+        ren: dict[int, int] = {}
+        for cl in self.calls:
+            ren.setdefault(cl["n"], len(ren))
+        now = self.vt.now()
+        calls = tuple((ren[cl["n"]], cl["started"] is not None, None if cl["started"] is None else repr(cl["started"] - now), c(cl["task"])) for cl in self.calls)
+        starts = tuple(repr(t - now) for t in self.starts if t > now - self.P)
+        return (c(self.fn), xstate.module_state(mod, c), calls, starts, xstate.loop_state(self.loop, c))
+
+
+def execute_fix(program) -> Result:
+    from hv import xstate
+
+    r = xstate.fixpoint(lambda: TSys(program), max_states=program.get("max_states", 100000), validate_merges=program.get("validate", "all"))
+    obs = {k: v for k, v in r.items() if k != "violations"}
+    return Result("fix/" + ("capped" if r["capped"] else "fixpoint"), r["states"] > 10, r["violations"], obs, steps=r["transitions"], capped=r["capped"], xstates=r["states"], xinfo=obs)
+
+
 DECLARED_DEVIATION_BOUND = {"quick": 2, "thorough": 3}  # for the long patterns only (BOUNDS / RULE say so)
 
 
 def explore_config(tier: str, program) -> dict:
+    if program.get("fix"):
+        return {}
     if program.get("long"):
         # 8..16 calls: every tie order is exponential; all executions with at most 2 (3) non-default
         # tie choices are explored (CHESS-style deviation bound), the default being FIFO
@@ -236,6 +364,8 @@ def explore_config(tier: str, program) -> dict:
 
 
 def execute(program, ch: Chooser) -> Result:  # noqa: C901, PLR0912, PLR0915
+    if program.get("fix"):
+        return execute_fix(program)
     if "two" in program:
         return _two_throttles(program, ch)
     P = PERIODS[program["period"]]
